@@ -766,57 +766,56 @@ func isBuiltinCall(call *ssa.Call, name string) bool {
 // slots are cleared, so an arena found by anything weaker than type identity
 // (size, kind) puts pointer-bearing values in memory that is not scanned.
 func ruleALKey(c *Ctx) {
-	c.Rule("AL-KEY", "the arena table is keyed by the exact run-time type: an existing arena is returned only where its recorded type pointer equals the requested type's, and a new arena records the requested type's own pointer", 2)
+	c.Rule("AL-KEY", "the arena table is keyed by the exact run-time type: the search over it is left with an entry only on the equal edge of entry.type == the requested type's pointer, and a new arena records the requested type's own pointer", 2)
 	P := c.P
-	rbT := P.NamedType(P.Avro, "ResourceBank")
-	var fn *ssa.Function
-	for _, f := range P.ModuleFuncs() {
-		if f.Signature.Recv() == nil || f.Pkg != P.Avro || f.Blocks == nil || f.Signature.Results().Len() != 1 {
-			continue
-		}
-		if rt := f.Signature.Recv().Type(); rbT == nil || typeKey(rt) != "*avro.ResourceBank" {
-			continue
-		}
-		if pt, ok := f.Signature.Results().At(0).Type().Underlying().(*types.Pointer); ok {
-			if _, isStruct := pt.Elem().Underlying().(*types.Struct); isStruct && reflectTypeParamIdx(f) >= 0 && !isUnsafePointer(f.Signature.Results().At(0).Type()) {
-				fn = f
-			}
-		}
-	}
-	if !c.Anchor(fn != nil, "the bank's arena lookup (method taking a reflect.Type, returning an arena entry)") {
-		return
-	}
-	typ := fn.Params[reflectTypeParamIdx(fn)]
 	R := resourceRoles(P)
 	if !c.Anchor(R.ok, "roles of the bank's fields") {
 		return
 	}
-	// wantLike: v is the data word of the requested reflect.Type
-	wantLike := func(v ssa.Value) bool {
-		src := rtypeSource(v)
-		return src != nil && stripChange(src) == ssa.Value(typ)
+	// the search: a loop that indexes the arena table, in a method of the bank that is given a reflect.Type
+	type search struct {
+		fn  *ssa.Function
+		l   *Loop
+		typ *ssa.Parameter
 	}
-	key := fnKey(fn)
-	var appendStore *ssa.Store
-	for _, b := range fn.Blocks {
-		for _, in := range b.Instrs {
-			if st, ok := in.(*ssa.Store); ok {
-				if call, ok := st.Val.(*ssa.Call); ok && isBuiltinCall(call, "append") {
-					appendStore = st
+	var found []search
+	for _, f := range P.ModuleFuncs() {
+		if f.Signature.Recv() == nil || f.Blocks == nil || typeKey(f.Signature.Recv().Type()) != "*avro.ResourceBank" || reflectTypeParamIdx(f) < 0 {
+			continue
+		}
+		for _, l := range loopsOf(f) {
+			hit := false
+			for blk := range l.Blocks {
+				for _, in := range blk.Instrs {
+					if ia, ok := in.(*ssa.IndexAddr); ok && strings.HasSuffix(accessPath(ia.X), "->"+R.types+")") {
+						hit = true
+					}
 				}
+			}
+			if hit {
+				found = append(found, search{f, l, f.Params[reflectTypeParamIdx(f)]})
 			}
 		}
 	}
-	nExisting := 0
-	for _, r := range returnsOf(fn) {
-		v := resolvedResults(r)[0]
-		if appendStore != nil && dominatesInstr(appendStore, r) {
-			continue // the freshly appended entry, judged below
+	if !c.Anchor(len(found) > 0, "the search over the bank's arena table (a loop indexing it, in a method given a reflect.Type)") {
+		return
+	}
+	for _, sr := range found {
+		fn, l, typ := sr.fn, sr.l, sr.typ
+		key := fnKey(fn)
+		wantLike := func(v ssa.Value) bool {
+			src := rtypeSource(v)
+			return src != nil && stripChange(src) == ssa.Value(typ)
 		}
-		nExisting++
-		ok := false
-		for _, cmp := range cmpFactsAt(r.Block()) {
-			if cmp.Op != token.EQL {
+		// the deciding comparison(s): entry.type == requested type
+		var cmpBlocks []*ssa.BasicBlock
+		for blk := range l.Blocks {
+			iff, ok := blk.Instrs[len(blk.Instrs)-1].(*ssa.If)
+			if !ok {
+				continue
+			}
+			cmp, ok := asCmp(iff.Cond, true)
+			if !ok || cmp.Op != token.EQL && cmp.Op != token.NEQ {
 				continue
 			}
 			for _, pair := range [][2]ssa.Value{{cmp.X, cmp.Y}, {cmp.Y, cmp.X}} {
@@ -825,28 +824,68 @@ func ruleALKey(c *Ctx) {
 					continue
 				}
 				fa, isFA := ld.X.(*ssa.FieldAddr)
-				if isFA && fieldName(fa.X.Type(), fa.Field) == R.ptyp && (fa.X == v || accessPath(fa.X) == accessPath(v)) && wantLike(pair[1]) {
-					ok = true
+				if isFA && fieldName(fa.X.Type(), fa.Field) == R.ptyp && wantLike(pair[1]) {
+					cmpBlocks = append(cmpBlocks, blk)
 				}
 			}
 		}
-		c.Check(ok, fmt.Sprintf("%s/existing-entry@%s", key, P.pos(r.Pos())), P.pos(r.Pos()), "returned only where entry.ptyp == the requested type's pointer", "an existing arena is returned without its recorded type having been found equal to the requested type: values of another type (with other pointer slots) are carved out of it, invisible to the collector or cleared with the wrong layout")
-	}
-	// the new entry records the requested type
-	okNew := false
-	if appendStore != nil {
-		app := appendStore.Val.(*ssa.Call)
-		if sl, ok := app.Call.Args[1].(*ssa.Slice); ok {
-			if a, ok := sl.X.(*ssa.Alloc); ok {
+		// every way out of the search other than running off the end of the table is the equal edge
+		bad := ""
+		nFound := 0
+		for blk := range l.Blocks {
+			for i, succ := range blk.Succs {
+				if l.Blocks[succ] {
+					continue
+				}
+				if blk == l.Header {
+					continue // the table is exhausted
+				}
+				isCmp := false
+				for _, cb := range cmpBlocks {
+					if cb == blk {
+						iff := blk.Instrs[len(blk.Instrs)-1].(*ssa.If)
+						cmp, _ := asCmp(iff.Cond, i == 0)
+						if cmp.Op == token.EQL {
+							isCmp = true
+						}
+					}
+				}
+				if isCmp {
+					nFound++
+				} else {
+					bad = "the search is left at " + P.pos(blk.Instrs[len(blk.Instrs)-1].Pos()) + " on an edge that is not the equal edge of a comparison of the entry's recorded type with the requested type"
+				}
+			}
+		}
+		c.Check(bad == "" && nFound > 0, key+"/existing-entry", P.pos(l.Header.Instrs[0].Pos()), "an existing arena is selected only where entry.type == the requested type's pointer", "an existing arena can be selected without its recorded type having been found equal to the requested type ("+bad+"): values of another type (with other pointer slots) are carved out of it, invisible to the collector or cleared with the wrong layout")
+		// the new entry records the requested type
+		okNew := false
+		for _, b := range fn.Blocks {
+			for _, in := range b.Instrs {
+				st, ok := in.(*ssa.Store)
+				if !ok {
+					continue
+				}
+				app, ok := st.Val.(*ssa.Call)
+				if !ok || !isBuiltinCall(app, "append") || len(app.Call.Args) != 2 {
+					continue
+				}
+				sl, ok := app.Call.Args[1].(*ssa.Slice)
+				if !ok {
+					continue
+				}
+				a, ok := sl.X.(*ssa.Alloc)
+				if !ok {
+					continue
+				}
 				for _, r := range referrersOf(a) {
 					ia, ok := r.(*ssa.IndexAddr)
 					if !ok {
 						continue
 					}
 					for _, r2 := range referrersOf(ia) {
-						// the element is copied in from a composite literal built in a local
-						if st, ok := r2.(*ssa.Store); ok && st.Addr == ssa.Value(ia) {
-							if ld, ok := st.Val.(*ssa.UnOp); ok && ld.Op == token.MUL {
+						if es, ok := r2.(*ssa.Store); ok && es.Addr == ssa.Value(ia) {
+							if ld, ok := es.Val.(*ssa.UnOp); ok && ld.Op == token.MUL {
 								if lit, ok := ld.X.(*ssa.Alloc); ok {
 									if v := literalFields(lit)[R.ptyp]; v != nil && wantLike(v) {
 										okNew = true
@@ -856,7 +895,7 @@ func ruleALKey(c *Ctx) {
 						}
 						if fa, ok := r2.(*ssa.FieldAddr); ok && fieldName(fa.X.Type(), fa.Field) == R.ptyp {
 							for _, r3 := range referrersOf(fa) {
-								if st, ok := r3.(*ssa.Store); ok && wantLike(st.Val) {
+								if es, ok := r3.(*ssa.Store); ok && wantLike(es.Val) {
 									okNew = true
 								}
 							}
@@ -865,8 +904,8 @@ func ruleALKey(c *Ctx) {
 				}
 			}
 		}
+		c.Check(okNew, key+"/new-entry", P.pos(fn.Pos()), "a new arena records the requested type's own pointer", "a new arena does not record the requested type's pointer")
 	}
-	c.Check(okNew && nExisting > 0, key+"/new-entry", P.pos(fn.Pos()), "a new arena records the requested type's own pointer", "a new arena does not record the requested type's pointer (or no existing-entry path was found)")
 }
 
 // ---------- AL-FINAL (C10, C11)
